@@ -72,7 +72,7 @@ def check(run):
     for name, cs, threads in orders:
         rows = [{"case": 1, "mode": "fmt", "calls": cs, "threads": threads}]
         runtimefam.replay_rows(run, rows, [{"catalogue": cat_syms}], "Trace_Formatter", "Trace_Formatter.cfg", "_l2_" + name,
-                               key_of=lambda r, ev, nm=name: "l2;%s;%s;%s;%s" % (nm, ev.get("key"), ev.get("locale"), sorted(r["tags"])[0].split(":")[0]))
+                               key_of=lambda r, ev, nm=name: "l2;%s;%s;%s;%s;%s" % (nm, ev.get("via"), ev.get("key"), ev.get("locale"), sorted(r["tags"])[0].split(":")[0]))
     run.samples = [{"text": items[len(items) // 2][1], "abs": items[len(items) // 2][0]}, {"catalogue_key": "f_dt2", "text": CATALOGUE["f_dt2"], "meaning": meaning["f_dt2"]}]
     run.exhaustive = True
     run.notes["formatter_texts"] = len(items)
